@@ -47,6 +47,8 @@ def run(ctx):
     _derived(ctx, 'C09.R3', ('Recipe', 'RecipeStep', 'Plate', 'Container', 'Slicer', 'PlateSlicer'))
     from .configtime import decisions_not_taken_on_display_values as _coarse
     _coarse(ctx, 'C09.R3', ('Container', 'Plate', 'PlateSlicer', 'Recipe', 'RecipeStep'))
+    from .c08 import steps_only_appended as _append_only
+    _append_only(ctx, 'C09.R3')
     from .configtime import refusals_not_rounded_for_display as _gate_digits
     _gate_digits(ctx, 'C09.R4', ('Recipe.get_substance_used',))
     from .configtime import no_shared_mutable_defaults as _mutdef
